@@ -536,27 +536,20 @@ Proof.
   specialize (Hn x (or_introl eq_refl)). destruct x; cbn in *. congruence.
 Qed.
 
-(* without extra note lists, the stacked frame holds exactly the notes of m.hits and m.holds *)
-Lemma stacked_perm m : wf_chart m = true -> no_extra m = true -> Permutation (stacked m) (chart_notes m).
+Lemma flat_map_ext_in {A B} (f g : A -> list B) l : (forall a, In a l -> f a = g a) -> flat_map f l = flat_map g l.
+Proof. induction l as [|x l IH]; cbn; intro He; auto. rewrite He by (left; reflexivity). f_equal. apply IH. intros; apply He; right; auto. Qed.
+
+(* the stacked frame holds exactly the notes of m.hits and m.holds *)
+Lemma stacked_eq m : wf_chart m = true -> stacked m = chart_notes m.
 Proof.
-  intros Hw Hx. apply wf_chart_inv in Hw as (_ & _ & Hh & Ho & Hn).
-  assert (forall l, In l m -> tl_slot l = SOther -> stack_rows l = []) as Hoth.
-  { intros l Hl Hs. unfold no_extra in Hx. rewrite forallb_forall in Hx.
-    assert (In l (others m)) as Hlo. { unfold others, slot_lists. apply filter_In. split; auto. rewrite Hs. reflexivity. }
-    specialize (Hx l Hlo). unfold stack_rows. destruct (tl_class l) eqn:Ec; auto; destruct (tl_notes l); auto; discriminate. }
-  clear Hx Hn. unfold stacked, chart_notes, slot_notes, slot_lists.
-  induction m as [|x m IH]. constructor.
-  assert (Permutation (flat_map stack_rows m)
-            (flat_map tl_notes (filter (fun l => slot_eqb (tl_slot l) SHits) m) ++
-             flat_map tl_notes (filter (fun l => slot_eqb (tl_slot l) SHolds) m))) as IH'.
-  { apply IH; intros; [apply Hh|apply Ho|apply Hoth]; auto; right; auto. }
-  cbn. destruct (tl_slot x) eqn:Es; cbn.
-  - destruct (Hh x (or_introl eq_refl) Es) as [Hc Hnn]. unfold stack_rows at 1. rewrite Hc, (map_hit_id _ Hnn).
-    rewrite <- app_assoc. apply Permutation_app_head. exact IH'.
-  - pose proof (Ho x (or_introl eq_refl) Es) as Hc. unfold stack_rows at 1. rewrite Hc.
-    eapply perm_trans. apply Permutation_app_head. exact IH'. apply Permutation_app_swap_app.
-  - rewrite (Hoth x (or_introl eq_refl) Es). cbn. exact IH'.
+  intros Hw. apply wf_chart_inv in Hw as (_ & _ & Hh & Ho & _).
+  unfold stacked, chart_notes, slot_notes, slot_lists, in_slot. f_equal; apply flat_map_ext_in; intros l Hl.
+  - apply filter_In in Hl as [Hl Hs]. apply slot_eqb_eq in Hs. destruct (Hh l Hl Hs) as [Hc Hn].
+    unfold stack_rows. rewrite Hc. apply map_hit_id. exact Hn.
+  - apply filter_In in Hl as [Hl Hs]. apply slot_eqb_eq in Hs. unfold stack_rows. rewrite (Ho l Hl Hs). reflexivity.
 Qed.
+Lemma stacked_perm m : wf_chart m = true -> Permutation (stacked m) (chart_notes m).
+Proof. intro Hw. rewrite (stacked_eq m Hw). reflexivity. Qed.
 
 Lemma partition_perm {A} (p : A -> bool) l : Permutation l (filter p l ++ filter (fun x => negb (p x)) l).
 Proof.
@@ -574,11 +567,11 @@ Qed.
 
 (* MAIN: for every sorted order the sort may return, the result satisfies the specification *)
 Theorem full_ln_sorted_spec m s gap thr m' :
-  wf_chart m = true -> no_extra m = true ->
+  wf_chart m = true ->
   Permutation s (stacked m) -> SortedOff s ->
   full_ln_sorted m s gap thr = Some m' -> Spec m gap thr m'.
 Proof.
-  intros Hw Hx Hp Hs Hr. apply full_ln_sorted_inv in Hr.
+  intros Hw Hp Hs Hr. apply full_ln_sorted_inv in Hr.
   set (rows := ln_rows gap thr s) in *. set (h := filter is_hit rows) in *.
   set (o := filter (fun n => negb (is_hit n)) rows) in *.
   destruct (wf_chart_inv m Hw) as (Hc1 & Hc2 & _).
@@ -613,8 +606,8 @@ Qed.
 
 (* ================================================================== the model with its stable sort *)
 Theorem full_ln_spec m gap thr m' :
-  wf_chart m = true -> no_extra m = true -> full_ln m gap thr = Some m' -> Spec m gap thr m'.
-Proof. intros Hw Hx. apply full_ln_sorted_spec; auto. apply isort_perm. apply isort_sorted. Qed.
+  wf_chart m = true -> full_ln m gap thr = Some m' -> Spec m gap thr m'.
+Proof. intros Hw. apply full_ln_sorted_spec; auto. apply isort_perm. apply isort_sorted. Qed.
 
 Theorem full_ln_defined m gap thr :
   wf_chart m = true -> exists m', full_ln m gap thr = Some m'.
@@ -622,37 +615,37 @@ Proof. intros. apply full_ln_sorted_defined; assumption. Qed.
 
 (* consequences, for every sorted order *)
 Theorem full_ln_sorted_count m s gap thr m' :
-  wf_chart m = true -> no_extra m = true -> Permutation s (stacked m) -> SortedOff s ->
+  wf_chart m = true -> Permutation s (stacked m) -> SortedOff s ->
   full_ln_sorted m s gap thr = Some m' -> CountKept (chart_notes m) (chart_notes m').
-Proof. intros Hw Hx Hp Hs Hr. eapply count_of_spec. apply (sp_notes _ _ _ _ (full_ln_sorted_spec m s gap thr m' Hw Hx Hp Hs Hr)). Qed.
+Proof. intros Hw Hp Hs Hr. eapply count_of_spec. apply (sp_notes _ _ _ _ (full_ln_sorted_spec m s gap thr m' Hw Hp Hs Hr)). Qed.
 
 Theorem full_ln_sorted_no_overlap m s gap thr m' :
-  wf_chart m = true -> no_extra m = true -> 0 <= gap -> Permutation s (stacked m) -> SortedOff s ->
+  wf_chart m = true -> 0 <= gap -> Permutation s (stacked m) -> SortedOff s ->
   full_ln_sorted m s gap thr = Some m' -> NoOverlap (chart_notes m) (chart_notes m').
 Proof.
-  intros Hw Hx Hg Hp Hs Hr. eapply no_overlap_of_spec. exact Hg.
-  apply (sp_notes _ _ _ _ (full_ln_sorted_spec m s gap thr m' Hw Hx Hp Hs Hr)).
+  intros Hw Hg Hp Hs Hr. eapply no_overlap_of_spec. exact Hg.
+  apply (sp_notes _ _ _ _ (full_ln_sorted_spec m s gap thr m' Hw Hp Hs Hr)).
 Qed.
 
 Theorem full_ln_sorted_last_kept m s gap thr m' :
-  wf_chart m = true -> no_extra m = true -> Permutation s (stacked m) -> SortedOff s ->
+  wf_chart m = true -> Permutation s (stacked m) -> SortedOff s ->
   full_ln_sorted m s gap thr = Some m' -> LastKept (chart_notes m) (chart_notes m').
-Proof. intros Hw Hx Hp Hs Hr. eapply last_kept_of_spec. apply (sp_notes _ _ _ _ (full_ln_sorted_spec m s gap thr m' Hw Hx Hp Hs Hr)). Qed.
+Proof. intros Hw Hp Hs Hr. eapply last_kept_of_spec. apply (sp_notes _ _ _ _ (full_ln_sorted_spec m s gap thr m' Hw Hp Hs Hr)). Qed.
 
 Theorem full_ln_count m gap thr m' :
-  wf_chart m = true -> no_extra m = true -> full_ln m gap thr = Some m' ->
+  wf_chart m = true -> full_ln m gap thr = Some m' ->
   CountKept (chart_notes m) (chart_notes m').
-Proof. intros Hw Hx. apply full_ln_sorted_count; auto. apply isort_perm. apply isort_sorted. Qed.
+Proof. intros Hw. apply full_ln_sorted_count; auto. apply isort_perm. apply isort_sorted. Qed.
 
 Theorem full_ln_no_overlap m gap thr m' :
-  wf_chart m = true -> no_extra m = true -> 0 <= gap -> full_ln m gap thr = Some m' ->
+  wf_chart m = true -> 0 <= gap -> full_ln m gap thr = Some m' ->
   NoOverlap (chart_notes m) (chart_notes m').
-Proof. intros Hw Hx Hg. apply full_ln_sorted_no_overlap; auto. apply isort_perm. apply isort_sorted. Qed.
+Proof. intros Hw Hg. apply full_ln_sorted_no_overlap; auto. apply isort_perm. apply isort_sorted. Qed.
 
 Theorem full_ln_last_kept m gap thr m' :
-  wf_chart m = true -> no_extra m = true -> full_ln m gap thr = Some m' ->
+  wf_chart m = true -> full_ln m gap thr = Some m' ->
   LastKept (chart_notes m) (chart_notes m').
-Proof. intros Hw Hx. apply full_ln_sorted_last_kept; auto. apply isort_perm. apply isort_sorted. Qed.
+Proof. intros Hw. apply full_ln_sorted_last_kept; auto. apply isort_perm. apply isort_sorted. Qed.
 
 (* what a `true` of the oracle on an implementation output means *)
 Theorem specb_consequences m gap thr m' :
@@ -665,31 +658,28 @@ Proof.
   split. eapply count_of_spec; eauto. split. eapply no_overlap_of_spec; eauto. eapply last_kept_of_spec; eauto.
 Qed.
 
-(* ================================================================== the defect class of the pinned tree *)
-(* StepMania: Map.stack((HitList, HoldList)) also collects mines/fakes/lifts/keysounds (HitList subclasses) and rolls
-   (HoldList subclass); they come back inside hits/holds and stay in their own list: note count is not conserved. *)
+(* ================================================================== the OLD variant (before the repair 2c338d8)
+   StepMania: Map.stack((HitList, HoldList)) also collected mines/fakes/lifts/keysounds (HitList subclasses) and rolls
+   (HoldList subclass); they came back inside hits/holds and stayed in their own list: note count not conserved.
+   The current model (only m.hits and m.holds are stacked) conserves it on the same chart. *)
 Definition sm_witness : chart :=
   [ mkTL SOther CHit [mkNote 1 500 None] [1];       (* mines: one mine at 500 in column 1 *)
     mkTL SHits CHit [mkNote 0 0 None] [];           (* hits: one hit at 0 in column 0 *)
     mkTL SHolds CHold [] [];
     mkTL SOther CNone [] [2] ].                     (* bpms *)
 
-Theorem full_ln_count_refuted :
+Theorem old_by_type_count_refuted :
   exists m gap thr m', wf_chart m = true /\ 0 <= gap /\ 0 <= thr /\
-    full_ln m gap thr = Some m' /\ ~ CountKept (chart_notes m) (chart_notes m').
+    full_ln_old_by_type m gap thr = Some m' /\ ~ CountKept (chart_notes m) (chart_notes m').
 Proof.
   exists sm_witness, 150, 100.
   eexists. split. reflexivity. split. lia. split. lia. split. vm_compute. reflexivity.
   intro Hp. apply Permutation_length in Hp. vm_compute in Hp. discriminate.
 Qed.
 
-Theorem full_ln_spec_refuted :
-  exists m gap thr m', wf_chart m = true /\ 0 <= gap /\ 0 <= thr /\
-    full_ln m gap thr = Some m' /\ ~ Spec m gap thr m'.
-Proof.
-  destruct full_ln_count_refuted as (m & gap & thr & m' & Hw & Hg & Ht & Hr & Hn).
-  exists m, gap, thr, m'. repeat split; auto. intro Hs. apply Hn. eapply count_of_spec. apply (sp_notes _ _ _ _ Hs).
-Qed.
+Theorem sm_witness_now_ok :
+  wf_chart sm_witness = true /\ specb sm_witness 150 100 (full_ln sm_witness 150 100) = true.
+Proof. vm_compute. split; reflexivity. Qed.
 
 (* ================================================================== the correspondence relation transfers the theorem
    (Corr/RunC17.v: [corr] accepts an implementation output that equals the model's output, as multisets of rows,
@@ -767,9 +757,9 @@ Proof.
 Qed.
 
 Theorem corr_transfers m gap thr out :
-  wf_chart m = true -> no_extra m = true -> RunC17.corr m gap thr out = true -> SpecO m gap thr out.
+  wf_chart m = true -> RunC17.corr m gap thr out = true -> SpecO m gap thr out.
 Proof.
-  intros Hw Hx. unfold RunC17.corr. destruct (full_ln m gap thr) as [mo|] eqn:Em.
+  intros Hw. unfold RunC17.corr. destruct (full_ln m gap thr) as [mo|] eqn:Em.
   2: { destruct (full_ln_defined m gap thr Hw) as [m' Hm]. congruence. }
   destruct out as [io|]; try discriminate. intro Hb.
   repeat (apply andb_true_iff in Hb as [Hb ?]).
